@@ -29,7 +29,7 @@ from lib.core import Ctx, REPO
 
 ID = "C02"
 NEEDS_GEN = True
-LEAN_TARGETS = ["AiuVerif.Props.C02"]
+LEAN_TARGETS = ["AiuVerif.Props.C02", "AiuVerif.Props.C02Total"]
 THEOREMS = [
     "AiuVerif.C02.schema_ok",
     "AiuVerif.C02.export_total",
@@ -41,6 +41,9 @@ THEOREMS = [
     "AiuVerif.C02.no_scratch_helperF",
     "AiuVerif.C02.no_scratch_counter_dur",
     "AiuVerif.C02.no_scratch_ts_cycles",
+    "AiuVerif.C02.overlap_tid_only_budget_error",
+    "AiuVerif.C02.overlap_drop_total",
+    "AiuVerif.C02.normalize_total",
 ]
 RULE = ("(a) random raw event dicts (phase from X,C,M,s,f,b,e,B,E,i,F,Q; random subsets of the keys each phase reads; falsy tid / bp) "
         "through the real convert_events; non-trivial = a required key is missing or an optional one present. (b) rich scenarios "
@@ -51,7 +54,10 @@ TRUSTED = ["json module for the strict re-parse (parse_constant rejects NaN/Infi
 ASSUMPTIONS = ["PARTIAL: 'no uncaught exception' for stage code outside the models (dict accesses in un-modelled branches, float "
                "rounding inside assertions, pandas) is only sampled by the end-to-end runs of this check",
                "equal guard text means equal truth value during one registration (args are not mutated while stages are registered)"]
-NOT_YET_PROVED = ["pipeline_total: runPipeline is total on well-formed input (needs the composition of all stage models)",
+NOT_YET_PROVED = ["pipeline_total: runPipeline is total on well-formed input (needs the composition of all stage models); proved "
+                  "today only for the modelled stage families: overlap (-O tid: only the lane-budget KeyError; -O drop: total), "
+                  "wrap correction + sanity checks (normalize_total); C06.asserts_hold and C10.never_raises cover time conversion "
+                  "and the power counter under their own hypotheses",
                   "finite numeric ts/dur and integer pid of every synthesized event (oracle only)"]
 LEVEL_TEXT = ("PARTIAL. Lean theorems: schema_ok / export_total for a model of convert_events + from_dict (which keys each phase needs, "
               "what is exported, dur only on complete events, exactly when it raises); no_scratch_* — a may-carry analysis over the "
